@@ -35,7 +35,15 @@ ALSO = {
            "on the dataset they read.",
     "C14": "image extents passed to package functions keep their axis: the (width, height) of get_image_size - also splatted - and "
            "names bound from them meet parameters of the same unit.",
-    "C18": "in the per-field loop of the padding collator no value computed from one field's data survives into the collation of a "
+    "C15": "no class-level container shared by all instances receives instance-dependent values (original bounds kept per instance).",
+    "C16": "label accessors and shape queries write nothing onto the wrapper; the index map of an index-translating wrapper is never "
+           "used as a store position of the bulk result.",
+    "C17": "collate of the mask collators writes nothing onto the collator; a flat patch index r * S + c uses the column extent as "
+           "stride; no freshly built default argument (a shared step counter) is kept by an instance.",
+    "C19": "the object handed to the post-cache transform is not the cached object (known finding on the pinned tree: in-place "
+           "transforms rewrite tensor entries of the Manager dict).",
+    "C18": "KDComposeCollator.__call__ goes through _call_impl with the composite's own configuration on every path; collate of the "
+           "padding collator writes nothing onto the collator; in the per-field loop of the padding collator no value computed from one field's data survives into the collation of a "
            "later field.",
 }
 
